@@ -61,6 +61,9 @@ func newLintCommand$2$1$1 returns (err)
   dyncall 1 lint.lintCmd
   modifies *
   modifies ghost(cbLen, cbErr, cbNode, cbStop, cbRet, cbLineNo, cbLine, cbHeader, cbElems, cbNElems, scRd, scPos, privLo, evOf, accKey, accP, accN, accH, bufSink, bufSticky, sinkFailed, sinkPend, prLen, prSink, prArg, prArgs, csvLen, csvW, csvN, csvRow, tnodes, tdepth, tmax, tmapOf, jlen, tvLen, tv, tseg, tvSet, adLen, adName, adVal, adSep, adRoot, procLen, procTime, procSrc, lastOpen, cfgRd)
+  // the command is actually run (exactly this call) and its error is what the closure returns
+  ghost after dyncall 1 { let cmdErr := #ret }
+  ensures @runs-the-command [C17 C16] err == cmdErr
   ghost before dyncall 1 {
     assert @streams [C16] #arg0 == streams[0]
     assert @wiring [C16 C09] #arg1.ParserConfig == o.ParserConfig && #arg1.ReporterConfig == o.ReporterConfig && #arg1.Silent == CtxIsSet(c, "silent")
@@ -72,6 +75,9 @@ func newLintCommand$2$1 returns (err)
   dyncall 1 lint.withFileReaders
   modifies *
   modifies ghost(cbLen, cbErr, cbNode, cbStop, cbRet, cbLineNo, cbLine, cbHeader, cbElems, cbNElems, scRd, scPos, privLo, evOf, accKey, accP, accN, accH, bufSink, bufSticky, sinkFailed, sinkPend, prLen, prSink, prArg, prArgs, csvLen, csvW, csvN, csvRow, tnodes, tdepth, tmax, tmapOf, jlen, tvLen, tv, tseg, tvSet, adLen, adName, adVal, adSep, adRoot, procLen, procTime, procSrc, lastOpen, cfgRd)
+  // the command is actually run (exactly this call) and its error is what the closure returns
+  ghost after dyncall 1 { let cmdErr := #ret }
+  ensures @runs-the-command [C17 C16] err == cmdErr
   ghost before dyncall 1 {
     assert @files [C16 C09] len(#arg0) == 1 && #arg0[0] == ArgsFirst(CtxArgs(c))
   }
